@@ -66,7 +66,10 @@ class LinkTraversal(NamedTuple):
         if new_start == self.start:
             return self
         else:
-            return self._replace(start=new_start)
+            return self._replace(
+                start=new_start,
+                distance_km=self._distance_of_part(new_start, self.end),
+            )
 
     def update_end(self, new_end: GeoId) -> LinkTraversal:
         """
@@ -81,7 +84,22 @@ class LinkTraversal(NamedTuple):
         if new_end == self.end:
             return self
         else:
-            return self._replace(end=new_end)
+            return self._replace(
+                end=new_end,
+                distance_km=self._distance_of_part(self.start, new_end),
+            )
+
+    def _distance_of_part(self, part_start: GeoId, part_end: GeoId) -> Kilometers:
+        """
+        the length of the part of this traversal that lies between two of its GeoIds: the same share of
+        distance_km as the part has of the straight line between start and end (a link's length is
+        generally not its straight-line length)
+        """
+        whole_line = H3Ops.great_circle_distance(self.start, self.end)
+        if whole_line <= 0:
+            return self.distance_km
+        part_line = H3Ops.great_circle_distance(part_start, part_end)
+        return self.distance_km * min(1.0, part_line / whole_line)
 
 
 class LinkTraversalResult(NamedTuple):
